@@ -170,10 +170,19 @@ func checkC12(c *ev.Ctx) {
 		b = append(b, f.trail...)
 		first := pool[f.idx[0]]
 		following := len(b) - f.lead - len(first.B)
-		for variant := 0; variant < 4; variant++ {
+		for variant := 0; variant < 6; variant++ {
 			single := variant&1 == 1
 			eofWithData := variant&2 == 2
+			// variants 4 and 5: the exported field of the Reader (it embeds its ReaderConfig) is
+			// given its value after NewReader returned, the constructor saw the opposite
+			setLater := variant >= 4
+			if setLater && i%3 != 0 {
+				continue
+			}
 			id := fmt.Sprintf("%s-s%v-e%v", f.id, single, eofWithData)
+			if setLater {
+				id += "-later"
+			}
 			noteCase(id)
 			if !want(c, id) {
 				continue
@@ -200,7 +209,24 @@ func checkC12(c *ev.Ctx) {
 					err = pn
 				}
 			} else {
-				out, err = libXZ(b, xz.ReaderConfig{DictCap: 4096, SingleStream: single})
+				if setLater {
+					srcKind = "field-set-after-NewReader"
+					pn := mon.Guard(func() {
+						var r *xz.Reader
+						r, err = xz.ReaderConfig{DictCap: 4096, SingleStream: !single}.NewReader(bytes.NewReader(b))
+						if err != nil {
+							err = fmt.Errorf("open: %w", err)
+							return
+						}
+						r.SingleStream = single
+						out, err = io.ReadAll(r)
+					})
+					if pn != nil {
+						err = pn
+					}
+				} else {
+					out, err = libXZ(b, xz.ReaderConfig{DictCap: 4096, SingleStream: single})
+				}
 			}
 			c.Count("source:"+srcKind, 1)
 			c.Eval(fmt.Sprintf("n%d-pads%v-lead%d-trail%d-s%v-e%v", len(f.idx), f.pads, f.lead, len(f.trail), single, eofWithData), len(all) > 0)
